@@ -29,7 +29,7 @@ func init() {
 			"clause (i) is decided by repetition: for maps of <= 8 keys Go randomises only the start slot, so an order dependence survives R runs with probability about 8^-(R-1) per map; maps of 9..40 keys are always included",
 			"clause (iii) interleaves at API-call granularity; it exposes state shared between instances, not data races inside one call (the -race free-running clause is separate, thorough tier)",
 		},
-		batches: map[string]int{"quick": 48, "thorough": 300},
+		batches: map[string]int{"quick": 48, "thorough": 96},
 		checks:  map[string]int{"quick": 40, "thorough": 100},
 	}})
 }
